@@ -148,7 +148,9 @@ def run(ctx):
         vlib.write_ndjson(pm, gmain)
         vlib.write_ndjson(ps, gside)
         total += vlib.check_trace(ctx, "Trace_BP.tla", "Trace.cfg", pm, sig_of,
-                                  group_key=lambda e: e.get("e") == "build", timeout=2400, selftest=(i == 0))
+                                  group_key=lambda e: e.get("e") == "build", timeout=2400, selftest=(i == 0),
+                                  # "r" is a recorded RESULT in every q / w event (build events carry rlen)
+                                  selftest_filter=lambda e: e.get("e") in ("q", "w"))
         if gside and not (os.environ.get("C04_DEV_FAST") and ctx.violations):
             total += vlib.check_trace(ctx, "Trace_BP.tla", "Trace.cfg", ps, sig_of,
                                       group_key=lambda e: e.get("e") == "build", timeout=2400, selftest=False)
@@ -185,4 +187,31 @@ def run(ctx):
     ]
 
 
-# MUTANTS: see the block appended after mutation testing (bottom of file)
+# MUTANTS (scratch worktree /tmp/wt-c04 of /repo HEAD, src/trees/bp.rs; all mutations compiled into ONE worktree
+# behind a runtime selector `mutant() == N` read from env C04_MUTANT, so one alt build serves every mutant;
+# `VERIF_REPO=/tmp/wt-c04 C04_MUTANT=N ./check C04` with C04_DEV_SKIP_MODEL=1 (the model stage does not read
+# /repo) and the default build only, except M9 (simd build).  C04_MUTANT=0 (instrumented, unmutated): exit 0.
+#   M1  CheckL1 `excess + min_e <= 0` -> `< 0`                              caught  find_close(0) -> None
+#   M2  l2_min_excess / l2_block_excess narrowed to i16 (all builders)      caught  find_close(48129) -> None (depth > 32767)
+#   M3  WithCsPoppy partition_point `r <= k` -> `r < k`                     caught  select1(513) = 1024
+#   M4  free enclose: `excess + word_excess >= 1` instead of max_excess     caught  enclose(205) -> None
+#   M5  build_bp_index: tail mask on read removed (borrowed stray bits)     caught  total_ones inflated
+#   M6  find_close_in_word_fast: byte test `<= 0` -> `< 0`                  caught  find_close(32256) -> None
+#   M7  CheckL0 `excess + min_e <= 0` -> `< 0`                              caught  find_close(32256) -> None
+#   M8  select0 binary search `rank0(mid+1) > k` -> `>= k`                  caught  select0(0) = 0
+#   M9  SSE4.1 L1 builder: running excess not inserted into lane 0 (simd)   caught  find_close(11809) wrong (simd build only)
+#   M10 CheckL2 skip advances 31 instead of 32 L1 blocks                    caught  find_close(1) wrong position
+#   M11 WithSelect: `result < len` backstop dropped                         caught  select1(94) = 208 >= len (surplus words)
+#   M12 free find_open starts with excess 0 instead of -1                   caught  find_open(1) -> None
+#   M13 build_l0_index: partial last word summarised over all 64 bits       NOT caught -- equivalent: a summary over a
+#       longer prefix only lowers the minimum, so no word/block is skipped that the code would scan; ScanWord itself
+#       honours valid_bits; the wrong word excess is only added when pos already passes len
+#   M14 rank1: rank_l2 offset read at (i+1)*9 instead of i*9                caught  rank1(128384)
+#   M16 WithCsPoppy build: sample block of word_idx+1                       caught  select1 panics (slice index)
+#   M17 mask_final_word_in_place clears one valid bit too many (owned)      caught  total_ones
+#   M18 next_sibling: is_open(close+1) test dropped                         caught  next_sibling(24063)
+#   M19 subtree_size off by one                                             caught  subtree_size(0)
+# Specification-level teeth (copy of spec/ in /tmp): RangeMinImpl CheckL0 guard `<= 0` -> `< 0` => MC_RangeMin
+# violated with raw=<<0,1,0,1>>, len=3; BpRuns.FwdSearch without the `- 1` => MC_BpRuns violated with rl=<<<<0,1>>>>.
+# Two first-draft mutants were equivalent and replaced (byte loop `pos+8 <= valid` -> `<`: the tail scan covers the
+# byte; ScanWord `word_idx*64+64 <= len` -> `<`: the else branch yields 64 as well).
